@@ -155,6 +155,15 @@ func lineA(s string) string {
 	)
 }
 
+var nestedSink int
+
+func nestedCount(t string) (n int) {
+	for range t {
+		n++
+	}
+	return n
+}
+
 // r: range (index, rune), range keys, iteration count, []rune, string([]rune), unicode/utf8
 func lineB(s string) string {
 	pairs, keys, cnt := "", "", 0
@@ -172,6 +181,29 @@ func lineB(s string) string {
 	}
 	for range s {
 		cnt++
+	}
+	// The same loop with other decoding work inside the body (a nested range, a
+	// []rune conversion, a call that ranges; the last rune decoded before the loop
+	// advances has another width than the loop's own rune): the iteration must not
+	// notice it (Utf8.tla: Range(s) is a function of s alone).
+	pairs2 := ""
+	for i, r := range s {
+		in := "a\u00e9\u20ac\U0001F600"
+		if i%2 == 1 {
+			in = "\U0001F600\u20ac\u00e9a"
+		}
+		for _, q := range in {
+			nestedSink += int(q)
+		}
+		nestedSink += len([]rune(in[:len(in)-i%2]))
+		nestedSink += nestedCount(in)
+		if pairs2 != "" {
+			pairs2 += ","
+		}
+		pairs2 += itoa(i) + "," + itoa(int(r))
+	}
+	if pairs2 != pairs {
+		pairs = "range-with-nested-decoding-differs " + pairs2
 	}
 	rs := []rune(s)
 	u := itoa(utf8.RuneCountInString(s)) + "," + b01(utf8.ValidString(s))
